@@ -67,6 +67,13 @@ def run_shard(cfg):
     pending = []
     for i in range(cfg["n"]):
         v = gen.value(0) if i % 4 else (r.choice(classes)._make(gen, 0) if classes else gen.value(0))
+        if i % 40 == 13:
+            # distinct doubles that are ONE float32: as set members / dictionary keys (alone or inside tuples) they coincide on the wire;
+            # the encoding is still the library's own and decodes - to the collapsed set / dict
+            x = r.choice([0.1, 3.141592653589793, 1e-50, 1 / 3, r.random(), -r.random() * 1e6, 16777217.0])
+            y = G.f32(x)
+            v = r.choice([{x, y}, {(1, x), (1, y)}, {x: "a", y: "b"}, [{x, y, 2.5}, {x: 1, y: 2}], {"k": {x, y}, "m": {(x, "t"): None, (y, "t"): [x]}}])
+            c.inc("float32_collisions_in_sets_and_keys")
         c.inc("values")
         try:
             want = G.canon(v)
